@@ -7,3 +7,5 @@ import "testing"
 // placeholders until the session engine is in place
 func c01SessionPart(t *testing.T, rec *vrec, caseIdx *int64) {}
 func c04SessionPart(t *testing.T, rec *vrec, caseIdx *int64) {}
+func c03SessionPart(t *testing.T, rec *vrec, caseIdx *int64) {}
+func c18SessionPart(t *testing.T, rec *vrec, caseIdx *int64) {}
